@@ -3,6 +3,7 @@ package main
 import (
 	"go/constant"
 	"go/token"
+	"go/types"
 
 	"golang.org/x/tools/go/ssa"
 )
@@ -54,6 +55,40 @@ func checkC05(c *Ctx) {
 	c.Clauses = append(c.Clauses, "C05.reasons: Ed25519 / Ed448 verification refuses only for the reasons RFC 8032 lists (every rejecting branch is a length comparison or decided by the key decoder, the range test of S or the final comparison)")
 	c.rejectReasonsRule(p, "C05.reasons", reasonSpec{pkg: ed, name: "verify", why: "RFC 8032 5.1.7",
 		callees: []string{ed + ".isLessThanOrder", "(*" + ed + ".pointR1).FromBytes", "bytes.Equal"}})
+	// the crypto.Signer entry points hand the caller's context on to every variant that has one (Ed25519ph,
+	// Ed25519ctx, Ed448, Ed448ph): with the scheme fixed, the context argument of the variant is not a constant
+	{
+		schemeIs := func(n int64) []ValAssume {
+			return []ValAssume{{Name: sprintf("opts.Scheme = %d", n), Val: latInt(n), Match: func(v ssa.Value, _ *ssa.Function) bool {
+				switch x := v.(type) {
+				case *ssa.Field:
+					st, ok := x.X.Type().Underlying().(*types.Struct)
+					return ok && st.Field(x.Field).Name() == "Scheme"
+				case *ssa.UnOp:
+					fa, ok := x.X.(*ssa.FieldAddr)
+					return ok && x.Op == token.MUL && fieldName(fa) == "Scheme"
+				}
+				return false
+			}}}
+		}
+		for _, t := range []struct {
+			pkg, typ, fn, callee string
+			scheme               int64
+			arg                  int
+			what                 string
+		}{
+			{ed, "", "VerifyAny", ed + ".VerifyPh", 1, 3, "Ed25519ph verification gets the caller's context"},
+			{ed, "", "VerifyAny", ed + ".VerifyWithCtx", 2, 3, "Ed25519ctx verification gets the caller's context"},
+			{ed, "PrivateKey", "Sign", ed + ".SignPh", 1, 2, "Ed25519ph signing gets the caller's context"},
+			{ed, "PrivateKey", "Sign", ed + ".SignWithCtx", 2, 2, "Ed25519ctx signing gets the caller's context"},
+			{e4, "", "VerifyAny", e4 + ".Verify", 0, 3, "Ed448 verification gets the caller's context"},
+			{e4, "", "VerifyAny", e4 + ".VerifyPh", 1, 3, "Ed448ph verification gets the caller's context"},
+			{e4, "PrivateKey", "Sign", e4 + ".Sign", 0, 2, "Ed448 signing gets the caller's context"},
+			{e4, "PrivateKey", "Sign", e4 + ".SignPh", 1, 2, "Ed448ph signing gets the caller's context"},
+		} {
+			c.argNotConstUnder(p, "C05.dep", t.what, p.Func(t.pkg, t.typ, t.fn), schemeIs(t.scheme), t.callee, t.arg)
+		}
+	}
 	// point decoding (5.1.3 / 5.2.3): y < p, the square root exists, x = 0 with the sign bit set, (Ed448) the
 	// low seven bits of the last octet are zero
 	c.rejectReasonsRule(p, "C05.reasons", reasonSpec{pkg: ed, typ: "pointR1", name: "FromBytes", why: "RFC 8032 5.1.3",
